@@ -8,4 +8,4 @@ for p in "$@"; do
   out=$(cd /verif && ./check $p 2>&1 | grep -E "VIOLATION|KNOWN-FINDING" | cut -c1-260)
   echo "[$p] ${out:-no alarm}"
 done
-git checkout -- . && git status --short | head -3
+git checkout -- . && git clean -fdq && git status --short | head -3
